@@ -290,6 +290,28 @@ def body(prop, args, seed, t0):
                 return 2
     # --- T4 end
 
+    # --- T14: the translated shot-bookkeeping definitions (`scale_and_discretize`, `get_measurements_representing_distribution`; numpy /
+    # float / random operations are external parameters) are run at Rat through the generated glue OQ/Generated/TranslatedDriverT14.lean
+    # with the externals as recorded tables and compared with the Python functions (harness/translated_check_t14.py); a disagreement is
+    # a fault of the translator, never a verdict about /repo
+    if prop in _tables._specs() and driver.available():
+        from harness import translated_check_t14 as _tc14
+        if any(p == prop for p, _s in _tc14.t14_specs()) and (build_ok or common.lake_build(["oqdriver"])[0]):
+            try:
+                n14, bad14, untr14 = _tc14.run(seed, only=prop)
+            except Exception as e:  # noqa: BLE001
+                if not broken:
+                    raise
+                n14, bad14, untr14 = 0, [], [f"self-check could not run: {type(e).__name__}: {str(e)[:120]}"]
+            tie["translated_t14_vs_python_function"] = n14
+            tie["untranslatable_now"] = list(tie.get("untranslatable_now", [])) + untr14
+            if bad14:
+                for b in bad14[:10]:
+                    print("  translator disagreement (shot bookkeeping):", b)
+                print(f"INTERNAL-ERROR property={prop} (the Python->Lean translation misrenders the code; no verdict)")
+                return 2
+    # --- T14 end
+
     # ---- 3. correspondence + oracle
     if args.replay:
         rp = json.load(open(args.replay))
